@@ -63,6 +63,6 @@ func (l *YAML) Unmarshal(b []byte) error {
 }
 
 // Config must return a threadsafe copy of the underlying config.
-func (l YAML) Config() chan config.ServerConfig {
+func (l *YAML) Config() chan config.ServerConfig {
 	return l.config
 }
